@@ -32,6 +32,12 @@ def base_scenarios(rng, n):
                           {2: [('close', 1000, ('b', b'bye'))]}, poll=5, prate=0))
     fixed.append(Scenario(reads([sc.good_reply() + server_frame(8, close_payload(1000, b'bye'))]) + [('wait', 5, None)] * 3 + [('wait', 1, ('eof',))], {}, poll=5, prate=0))
     fixed.append(Scenario(reads([sc.good_reply()]) + [('wait', 2, None)] * 6 + [('wait', 1, ('eof',))], {3: [('close', 1001, ('b', b''))]}, poll=2, prate=3, ptimeout=0, ctimeout=7))
+    # wss://: the socket is an SSLSocket (it has unwrap() / pending(); a peer that is gone does not answer a close_notify)
+    W = 'wss://example.com/chat'
+    fixed.append(Scenario(reads([sc.good_reply()]) + [('wait', 5, None), ('wait', 0, ('data', server_frame(1, b'hi') + server_frame(9, b'p'))),
+                                                      ('wait', 0, ('data', server_frame(8, close_payload(1000, b'bye')))), ('wait', 1, ('eof',))], {}, poll=5, prate=0, url=W))
+    fixed.append(Scenario(reads([sc.good_reply()]) + [('wait', 5, None)] * 2 + [('wait', 1, ('eof',))], {2: [('close', 1000, ('b', b'bye'))]}, poll=5, prate=0, url=W))
+    fixed.append(Scenario(reads([sc.good_reply() + server_frame(1, b'\xff')]) + [('wait', 0, ('sockerr',))], {}, prate=0, url=W))
     out += fixed
     while len(out) < n:
         out.append(gen_core.gen_history(rng, n_steps=rng.randint(1, 6), timers=rng.random() < 0.5, reactions=rng.random() < 0.3))
@@ -41,7 +47,7 @@ def base_scenarios(rng, n):
 def explore(res, tier, seed, model_ok=True):
     rng = random.Random(seed)
     nbase = 30 if tier == 'quick' else 250
-    res.rule = ('%d base scenarios (14 fixed covering every yield point of run(): Connecting, ConnectFail, Connected, housekeeping Poll, Unresponsive, Ready, messages, Closing, Closed, Rejected, ProtocolError, Disconnected; rest random) '
+    res.rule = ('%d base scenarios (17 fixed - three of them wss:// connections, whose socket has unwrap()/pending() like an SSLSocket - covering every yield point of run(): Connecting, ConnectFail, Connected, housekeeping Poll, Unresponsive, Ready, messages, Closing, Closed, Rejected, ProtocolError, Disconnected; rest random) '
                 'x every event index x 4 abandonment mechanisms (generator close(), break+drop, exception in handler, exception leaving a with-block); '
                 'a sample of the same abandonments as the second connection on an object whose first connection ran in a with-block / raised / was closed by the server; oracle: simulated socket and selector both closed afterwards; non-trivial = abandonment at an event where a socket exists; distinct by (scenario, index, mechanism)') % nbase
     bases = base_scenarios(rng, nbase)
